@@ -53,6 +53,8 @@ func init() {
 		MinRuns:    200,
 		Exec:       runC19,
 		PanicClass: panicInRepo("sync-panic"),
+		// reach probes every batch is expected to hit (listed in the evidence as probes_never_hit otherwise)
+		ExpectedProbes: []string{"accepted-before-handed-out", "crash-between-puts-of-a-commit", "duplicate-while-waiting-for-children", "interrupted-with-nonempty-membatch", "packets-of-previous-incarnation-in-flight", "pivot-after-complete-old-version", "put-by-put-commit-of-several-entries", "root-absent-at-interruption", "root-of-other-trie-present-at-interruption", "source-account-with-code", "source-account-with-delegations-blob", "source-storage-trie-shared-by-accounts", "sync-finds-root-already-present", "whole-state-compared"},
 	})
 }
 
@@ -81,10 +83,10 @@ type syncJob struct {
 type srcVersion struct {
 	jobs []*syncJob
 	// state sources
-	isState                   bool
-	root, valRoot, stakeRoot  common.Hash
-	addrs                     []common.Address
-	slots                     []common.Hash
+	isState                  bool
+	root, valRoot, stakeRoot common.Hash
+	addrs                    []common.Address
+	slots                    []common.Hash
 }
 
 type packet struct {
@@ -366,7 +368,9 @@ func init() {
 
 var c19Codes = [][]byte{{0x60, 0x00}, {0x60, 0x01, 0x60, 0x02, 0x01}, bytes.Repeat([]byte{0x5b}, 70)}
 
-func acctAddr(i int) common.Address { return common.BytesToAddress([]byte{0xa0, byte(i >> 8), byte(i)}) }
+func acctAddr(i int) common.Address {
+	return common.BytesToAddress([]byte{0xa0, byte(i >> 8), byte(i)})
+}
 
 // buildState builds one or two versions of a whole state the way block processing does:
 // mutations on a StateDB, Commit, then TrieDB().Commit of the three roots (blockchain.go:802-813).
